@@ -1,8 +1,576 @@
-//! placeholder: this component is not built yet
+//! C13 — output regions: the REAL `Context` is driven through assembly TEXT (so `.addr`, `.align`, the data
+//! directives, `Arm6M::assemble`, the task queues, `close_segment` and `finalize` are all in the loop) and
+//! compared with the Lean model `Trion.Seg`; the property oracle is a byte-level shadow dictionary.
+//!
+//! Inputs (replayable): `run <op>;<op>;…` (one op per statement, see Driver/Seg.lean) and
+//! `enum <base> <depth> <prefix>` (all programs of length ≤ depth over the 26-statement alphabet).
+use std::collections::BTreeMap;
+use std::error::Error;
+use std::path::PathBuf;
+use std::sync::atomic::{AtomicUsize, Ordering};
+use std::sync::Mutex;
+
+use trion::arm6m::Arm6M;
+use trion::asm::constant::Realm;
+use trion::asm::directive::DirectiveList;
+use trion::asm::Context;
+
 use crate::common::*;
 
-pub fn run(id: &str, cx: &mut Cx)
+#[derive(Clone, Copy, Debug, PartialEq, Eq)]
+enum Mode {Imm, Local, Global}
+
+/// one statement of a generated program
+#[derive(Clone, Debug)]
+enum St
 {
-	cx.report.notes.push(format!("component for {id} not implemented"));
-	cx.report.oracle_fail("-", "harness component not implemented");
+	Addr(u32),
+	/// `.dhex` / `.dstr` (immediate, `ActiveSegment::write`)
+	Bytes(Vec<u8>),
+	Align(u32),
+	/// `.du8/.du16/.du32` with the final little-endian bytes
+	Du(Vec<u8>, Mode),
+	Nop,
+	/// `UDF.N imm8`
+	Udf(u8, Mode),
+	/// `UDF.W imm16`
+	UdfW(u16, Mode),
+}
+
+impl St
+{
+	/// final bytes of a writing statement
+	fn bytes(&self) -> Vec<u8>
+	{
+		match self
+		{
+			St::Addr(..) | St::Align(..) => Vec::new(),
+			St::Bytes(d) | St::Du(d, _) => d.clone(),
+			St::Nop => vec![0x00, 0xBF],
+			St::Udf(v, _) => vec![*v, 0xDE],
+			St::UdfW(v, _) => {let (h1, h2) = (0xF7F0u16 | (v >> 12), 0xA000u16 | (v & 0xFFF)); vec![h1 as u8, (h1 >> 8) as u8, h2 as u8, (h2 >> 8) as u8]},
+		}
+	}
+
+	fn mode(&self) -> Mode
+	{
+		match self {St::Du(_, m) | St::Udf(_, m) | St::UdfW(_, m) => *m, _ => Mode::Imm}
+	}
+
+	fn value(&self) -> i64
+	{
+		match self
+		{
+			St::Du(d, _) => d.iter().enumerate().map(|(i, &b)| (b as i64) << (8 * i)).sum(),
+			St::Udf(v, _) => *v as i64,
+			St::UdfW(v, _) => *v as i64,
+			_ => 0,
+		}
+	}
+
+	/// the op of the model's line protocol
+	fn op(&self) -> String
+	{
+		match self
+		{
+			St::Addr(a) => format!("sel:{a}"),
+			St::Bytes(d) => format!("app:{}", hex(d)),
+			St::Align(n) => format!("al:{n}"),
+			_ => format!("{}:{}", match self.mode() {Mode::Imm => "plc", Mode::Local => "defl", Mode::Global => "defg"}, hex(&self.bytes())),
+		}
+	}
+
+	/// assembly text of the statement at position `t`
+	fn text(&self, t: usize) -> String
+	{
+		let arg = |m: Mode, v: i64| match m {Mode::Imm => format!("{v}"), Mode::Local => format!("f{t}"), Mode::Global => format!("g{t}")};
+		match self
+		{
+			St::Addr(a) => format!(".addr {a};"),
+			St::Bytes(d) =>
+			{
+				if !d.is_empty() && d.iter().all(|b| b.is_ascii_alphanumeric()) {format!(".dstr \"{}\";", String::from_utf8_lossy(d))}
+				else {format!(".dhex \"{}\";", if d.is_empty() {String::new()} else {hex(d)})}
+			},
+			St::Align(n) => format!(".align {n};"),
+			St::Du(d, m) => format!(".du{} {};", d.len() * 8, arg(*m, self.value())),
+			St::Nop => "NOP;".to_owned(),
+			St::Udf(_, m) => format!("UDF.N {};", arg(*m, self.value())),
+			St::UdfW(_, m) => format!("UDF.W {};", arg(*m, self.value())),
+		}
+	}
+
+	fn parse_op(op: &str) -> Option<St>
+	{
+		let w: Vec<&str> = op.split(':').collect();
+		match w.as_slice()
+		{
+			["sel", a] => Some(St::Addr(a.parse().ok()?)),
+			["app", d] => Some(St::Bytes(unhex(d)?)),
+			["al", n] => Some(St::Align(n.parse().ok()?)),
+			[k @ ("plc" | "defl" | "defg"), d] =>
+			{
+				let d = unhex(d)?;
+				let m = match *k {"plc" => Mode::Imm, "defl" => Mode::Local, _ => Mode::Global};
+				match d.len()
+				{
+					1 => Some(St::Du(d, m)),
+					2 if d == [0x00, 0xBF] && m == Mode::Imm => Some(St::Nop),
+					2 if d[1] == 0xDE => Some(St::Udf(d[0], m)),
+					2 => Some(St::Du(d, m)),
+					4 if d[1] == 0xF7 && d[0] & 0xF0 == 0xF0 && d[3] & 0xF0 == 0xA0 =>
+						Some(St::UdfW((((d[0] & 0x0F) as u16) << 12) | (((d[3] & 0x0F) as u16) << 8) | d[2] as u16, m)),
+					4 => Some(St::Du(d, m)),
+					_ => None,
+				}
+			},
+			_ => None,
+		}
+	}
+}
+
+fn ops_text(prog: &[St]) -> String {prog.iter().map(|s| s.op()).collect::<Vec<_>>().join(";")}
+
+// ------------------------------------------------------------------------------------------------
+// the real pipeline
+
+fn classify(msg: &str) -> String
+{
+	let nums = |s: &str| -> Vec<String> {s.split(|c: char| !c.is_ascii_digit()).filter(|x| !x.is_empty()).map(|x| x.to_owned()).collect()};
+	if msg.starts_with("address ") && msg.ends_with("is already occupied")
+	{
+		format!("occupied {}", msg[8..16].to_ascii_lowercase())
+	}
+	else if msg.starts_with("segment overflow (need") {let n = nums(msg); format!("overflow {} {}", n[0], n[1])}
+	else if msg.starts_with("segment overflow (expected") {let n = nums(msg); format!("write {} {}", n[0], n[1])}
+	else if msg.starts_with("no active segment") {"inactive".to_owned()}
+	else {format!("other:{}", msg.replace(' ', "_").replace(',', "_"))}
+}
+
+fn innermost(e: &(dyn Error + 'static)) -> String
+{
+	let mut cur: &(dyn Error + 'static) = e;
+	while let Some(s) = cur.source() {cur = s;}
+	cur.to_string()
+}
+
+/// run a program through the real assembler; canonical `<errors> | <image>`
+fn real_run(dirs: &DirectiveList, prog: &[St]) -> String
+{
+	let globals: Vec<usize> = prog.iter().enumerate().filter(|(_, s)| s.mode() == Mode::Global).map(|(t, _)| t).collect();
+	let mut text = String::new();
+	for t in &globals {text.push_str(&format!(".import g{t};\n"));}
+	for (t, s) in prog.iter().enumerate() {text.push_str(&s.text(t)); text.push('\n');}
+	for (t, s) in prog.iter().enumerate() {if s.mode() == Mode::Local {text.push_str(&format!(".const f{t}, {};\n", s.value()));}}
+	let nprel = globals.len() as u32;
+	let r = guarded(||
+	{
+		let mut ctx = Context::new(&Arm6M, dirs);
+		for t in &globals {ctx.defer_constant(&format!("g{t}"), Realm::Global).unwrap();}
+		drop(ctx.assemble(text.as_bytes(), PathBuf::from("p.asm")));
+		let mut errs: Vec<String> = Vec::new();
+		let take = |ctx: &Context, errs: &mut Vec<String>, from: usize|
+		{
+			for e in &ctx.get_errors()[from..]
+			{
+				let mut msg = e.value.to_string();
+				let mut cur = e.value.source();
+				while let Some(s) = cur {msg = s.to_string(); cur = s.source();}
+				let kind = classify(&msg);
+				if e.line > nprel && e.line <= nprel + prog.len() as u32 {errs.push(format!("E{} {kind}", e.line - nprel - 1));}
+				else {errs.push(format!("L{} {kind}", e.line));}
+			}
+			ctx.get_errors().len()
+		};
+		let n = take(&ctx, &mut errs, 0);
+		if let Err(e) = ctx.close_segment() {errs.push(format!("C {}", classify(&innermost(&e))));}
+		for t in &globals {let _ = ctx.insert_constant(&format!("g{t}"), prog[*t].value(), Realm::Global);}
+		ctx.finalize();
+		take(&ctx, &mut errs, n);
+		// one failing `.du*` statement is reported twice by the implementation (value write, then placeholder write);
+		// duplicate diagnostics are outside the property: adjacent identical entries are merged
+		errs.dedup();
+		let mut img = String::from("[");
+		for (i, (r, d)) in ctx.output().iter().enumerate()
+		{
+			if i > 0 {img.push(',');}
+			img.push_str(&format!("{:08x}:{}", r.get_first(), hex(d)));
+		}
+		img.push(']');
+		format!("{} | {img}", if errs.is_empty() {"ok".to_owned()} else {errs.join(",")})
+	});
+	match r {Ok(s) => s, Err(p) => format!("PANIC: {p}")}
+}
+
+// ------------------------------------------------------------------------------------------------
+// the property oracle: byte-level shadow, independent of the model
+
+/// expected `<errors> | <image>` by the property: a region starts exactly at the selected address; a selected
+/// address that already holds output is refused; a statement that would run into an occupied address or past
+/// 0xFFFFFFFF is a diagnostic and nothing is written; no byte of an earlier statement is ever replaced, except
+/// a placeholder by its own resolved value.
+fn oracle_run(prog: &[St]) -> String
+{
+	let mut sh: BTreeMap<u32, u8> = BTreeMap::new();
+	let mut cursor: Option<u64> = None;
+	let mut deferred: Vec<(u64, Vec<u8>)> = Vec::new();
+	let mut status = "ok".to_owned();
+	for (t, s) in prog.iter().enumerate()
+	{
+		let (len, fill): (usize, Option<Vec<u8>>) = match s
+		{
+			St::Addr(a) =>
+			{
+				if sh.contains_key(a) {status = format!("E{t} occupied {a:08x}"); break;}
+				cursor = Some(*a as u64);
+				continue;
+			},
+			St::Align(n) =>
+			{
+				let Some(c) = cursor else {status = format!("E{t} inactive"); break;};
+				// the implementation computes the alignment on the cursor saturated at 0xFFFFFFFF
+				let off = c.min(0xFFFF_FFFF) % *n as u64;
+				if off == 0 {continue;}
+				((*n as u64 - off) as usize, Some(vec![0xBE; (*n as u64 - off) as usize]))
+			},
+			_ => (s.bytes().len(), None),
+		};
+		let Some(c) = cursor else {status = format!("E{t} inactive"); break;};
+		// room up to the next occupied address or the end of the address space
+		let limit = sh.range((c.min(0xFFFF_FFFF) as u32)..).next().map(|(k, _)| *k as u64).filter(|&k| k >= c).unwrap_or(1 << 32);
+		let have = limit.saturating_sub(c);
+		if len as u64 > have {status = format!("E{t} overflow {len} {have}"); break;}
+		let data = match (fill, s.mode())
+		{
+			(Some(f), _) => f,
+			(None, Mode::Imm) => s.bytes(),
+			(None, _) => {deferred.push((c, s.bytes())); vec![0xBE; len]},
+		};
+		for (k, &b) in data.iter().enumerate() {sh.insert((c + k as u64) as u32, b);}
+		cursor = Some(c + len as u64);
+	}
+	if status == "ok"
+	{
+		for (c, d) in deferred {for (k, &b) in d.iter().enumerate() {sh.insert((c + k as u64) as u32, b);}}
+	}
+	let mut img = String::from("[");
+	let mut prev: Option<u32> = None;
+	for (&a, &b) in &sh
+	{
+		if prev.map(|p| p as u64 + 1) != Some(a as u64)
+		{
+			if prev.is_some() {img.push(',');}
+			img.push_str(&format!("{a:08x}:"));
+		}
+		img.push_str(&format!("{b:02x}"));
+		prev = Some(a);
+	}
+	img.push(']');
+	format!("{status} | {img}")
+}
+
+fn check_prog(cx: &mut Cx, dirs: &DirectiveList, prog: &[St], reply: &str)
+{
+	let ops = ops_text(prog);
+	let input = format!("run {ops}");
+	let imp = real_run(dirs, prog);
+	cx.report.case(Some(&imp));
+	cx.report.hit(if imp.starts_with("ok") {"program: ok"} else if imp.contains("occupied") {"program: occupied"} else if imp.contains("overflow") {"program: overflow"}
+		else if imp.contains("inactive") {"program: inactive"} else {"program: other"});
+	cx.report.compare("model.seg.run", &input, reply, &imp);
+	let want = oracle_run(prog);
+	if imp != want
+	{
+		cx.report.oracle_fail(input, format!("the property requires {want}; the assembler produced {imp}"));
+	}
+}
+
+// ------------------------------------------------------------------------------------------------
+// alphabet of the exhaustive tier (mirrors Driver/Seg.lean: opAt)
+
+fn op_at(base: u32, t: usize, i: usize) -> St
+{
+	let b = |k: usize, n: usize| -> Vec<u8> {(0..n).map(|j| ((k + 16 * j + t) % 256) as u8).collect()};
+	let c = ((0xC0 + t) % 256) as u8;
+	match i
+	{
+		0..=7 => St::Addr(base + i as u32),
+		8..=11 => St::Bytes(b(0x50, i - 7)),
+		12 => St::Du(b(0x10, 1), Mode::Imm),
+		13 => St::Du(b(0x10, 2), Mode::Imm),
+		14 => St::Du(b(0x10, 4), Mode::Imm),
+		15 => St::Nop,
+		16 => St::UdfW(0x1234, Mode::Imm),
+		17 => St::Du(b(0xC0, 1), Mode::Local),
+		18 => St::Du(b(0xC0, 2), Mode::Local),
+		19 => St::Du(b(0xC0, 4), Mode::Local),
+		20 => St::Udf(c, Mode::Local),
+		21 => St::UdfW(0x0500 | c as u16, Mode::Local),
+		22 => St::Du(b(0xC0, 1), Mode::Global),
+		23 => St::Du(b(0xC0, 2), Mode::Global),
+		24 => St::Align(2),
+		_ => St::Align(4),
+	}
+}
+
+fn mix(h: u64, n: u64) -> u64 {(h ^ n).wrapping_mul(0x100000001b3)}
+
+/// hash of a canonical result, identical to `hashResult` of the driver: FNV over the error text, then the image
+fn hash_result(mut h: u64, res: &str) -> u64
+{
+	let (errs, img) = res.split_once(" | ").unwrap_or((res, "[]"));
+	h = fnv(h, errs.as_bytes());
+	let segs: Vec<(u32, Vec<u8>)> = img.trim_matches(|c| c == '[' || c == ']').split(',').filter(|s| !s.is_empty())
+		.map(|s| {let (a, d) = s.split_once(':').unwrap(); (u32::from_str_radix(a, 16).unwrap(), unhex(d).unwrap())}).collect();
+	h = mix(h, segs.len() as u64);
+	for (a, d) in segs
+	{
+		h = mix(mix(h, a as u64), a as u64 + d.len() as u64 - 1);
+		h = mix(h, d.len() as u64);
+		for b in d {h = mix(h, b as u64);}
+	}
+	h
+}
+
+struct EnumOut
+{
+	digest: u64,
+	nodes: u64,
+	failure: Option<(Vec<St>, String)>,
+	hist: BTreeMap<&'static str, u64>,
+}
+
+fn enum_go(dirs: &DirectiveList, base: u32, depth: usize, prog: &mut Vec<St>, mut h: u64, out: &mut EnumOut) -> u64
+{
+	if prog.len() >= depth {return h;}
+	let t = prog.len();
+	for i in 0..26
+	{
+		prog.push(op_at(base, t, i));
+		let (h2, ok) = enum_node(dirs, prog, h, out);
+		h = h2;
+		if ok {h = enum_go(dirs, base, depth, prog, h, out);}
+		prog.pop();
+	}
+	h
+}
+
+fn enum_node(dirs: &DirectiveList, prog: &[St], h: u64, out: &mut EnumOut) -> (u64, bool)
+{
+	let imp = real_run(dirs, prog);
+	out.nodes += 1;
+	*out.hist.entry(if imp.starts_with("ok") {"program: ok"} else if imp.contains("occupied") {"program: occupied"} else if imp.contains("overflow") {"program: overflow"}
+		else if imp.contains("inactive") {"program: inactive"} else {"program: other"}).or_insert(0) += 1;
+	let want = oracle_run(prog);
+	if imp != want && out.failure.is_none() {out.failure = Some((prog.to_vec(), format!("the property requires {want}; the assembler produced {imp}")));}
+	(hash_result(h, &imp), imp.starts_with("ok"))
+}
+
+fn real_enum(dirs: &DirectiveList, base: u32, depth: usize, pre: &[usize]) -> EnumOut
+{
+	let mut out = EnumOut{digest: 0, nodes: 0, failure: None, hist: BTreeMap::new()};
+	let mut prog: Vec<St> = Vec::new();
+	let mut h = FNV_INIT;
+	for (t, &i) in pre.iter().enumerate()
+	{
+		prog.push(op_at(base, t, i));
+		let (h2, ok) = enum_node(dirs, &prog, h, &mut out);
+		h = h2;
+		if !ok {out.digest = h; return out;}
+	}
+	out.digest = enum_go(dirs, base, depth, &mut prog, h, &mut out);
+	out
+}
+
+fn pre_text(pre: &[usize]) -> String
+{
+	if pre.is_empty() {"-".to_owned()} else {pre.iter().map(|i| i.to_string()).collect::<Vec<_>>().join(",")}
+}
+
+/// digest mismatch below `pre`: find the first differing program and report it as text
+fn bisect(cx: &mut Cx, dirs: &DirectiveList, base: u32, depth: usize, pre: Vec<usize>)
+{
+	let mut pre = pre;
+	loop
+	{
+		let prog: Vec<St> = pre.iter().enumerate().map(|(t, &i)| op_at(base, t, i)).collect();
+		let reply = cx.model.ask(&format!("seg run {}", ops_text(&prog)));
+		let before = cx.report.disagreements_total;
+		check_prog(cx, dirs, &prog, &reply);
+		if cx.report.disagreements_total > before || pre.len() >= depth {return;}
+		let mut next = None;
+		for i in 0..26
+		{
+			let mut p = pre.clone();
+			p.push(i);
+			let m = cx.model.ask(&format!("seg enum {base} {depth} {}", pre_text(&p)));
+			let r = real_enum(dirs, base, depth, &p);
+			if m != format!("{:016x}", r.digest) {next = Some(p); break;}
+		}
+		match next {Some(p) => pre = p, None => return}
+	}
+}
+
+fn check_enum(cx: &mut Cx, dirs: &DirectiveList, base: u32, depth: usize, pre: &[usize], model_digest: &str, out: EnumOut)
+{
+	cx.report.cases(out.nodes);
+	cx.report.distinct_key(out.digest);
+	for (k, v) in &out.hist {cx.report.hit_n(k, *v);}
+	cx.report.hit_n("enumerated programs", out.nodes);
+	if let Some((prog, msg)) = out.failure {cx.report.oracle_fail(format!("run {}", ops_text(&prog)), msg);}
+	if model_digest != format!("{:016x}", out.digest)
+	{
+		let before = cx.report.disagreements_total;
+		bisect(cx, dirs, base, depth, pre.to_vec());
+		if cx.report.disagreements_total == before
+		{
+			cx.report.disagree("model.seg.enum", format!("enum {base} {depth} {}", pre_text(pre)), model_digest, format!("{:016x}", out.digest));
+		}
+	}
+}
+
+fn exhaustive(cx: &mut Cx, dirs: &DirectiveList, depth: usize)
+{
+	let bases = [0x100u32, 0xFFFF_FFF8];
+	// split at the first two statements so that the work spreads over the workers
+	let mut tasks: Vec<(u32, Vec<usize>)> = Vec::new();
+	for &b in &bases {for i in 0..26 {tasks.push((b, vec![i]));}}
+	let next = AtomicUsize::new(0);
+	let results: Mutex<Vec<(usize, String, EnumOut)>> = Mutex::new(Vec::new());
+	std::thread::scope(|s|
+	{
+		for _ in 0..4
+		{
+			s.spawn(||
+			{
+				let dirs = DirectiveList::generate();
+				let mut model = Model::spawn();
+				loop
+				{
+					let k = next.fetch_add(1, Ordering::SeqCst);
+					if k >= tasks.len() {break;}
+					let (base, pre) = &tasks[k];
+					let m = model.ask(&format!("seg enum {base} {depth} {}", pre_text(pre)));
+					let out = real_enum(&dirs, *base, depth, pre);
+					results.lock().unwrap().push((k, m, out));
+				}
+			});
+		}
+	});
+	let mut results = results.into_inner().unwrap();
+	results.sort_by_key(|r| r.0);
+	cx.model.requests += results.len() as u64;
+	for (k, m, out) in results {let (base, pre) = tasks[k].clone(); check_enum(cx, dirs, base, depth, &pre, &m, out);}
+}
+
+// ------------------------------------------------------------------------------------------------
+// random long programs
+
+fn gen_prog(rng: &mut Rng, n: usize) -> Vec<St>
+{
+	let centre: u64 = match rng.below(4) {0 => 0, 1 => 0xFFFF_FFFF, 2 => 0x1000_0000, _ => rng.below(1 << 32)};
+	let spread = *rng.pick(&[12i64, 40, 200]);
+	let mut prog = Vec::with_capacity(n);
+	let mode = |rng: &mut Rng| match rng.below(10) {0..=4 => Mode::Imm, 5..=7 => Mode::Local, _ => Mode::Global};
+	for _ in 0..n
+	{
+		let st = match rng.below(100)
+		{
+			0..=21 => St::Addr((centre as i64 + rng.range(-spread, spread)).clamp(0, 0xFFFF_FFFF) as u32),
+			22..=36 => St::Bytes((0..rng.range(0, 6)).map(|_| if rng.chance(1, 2) {*rng.pick(b"abcxyzABC019")} else {rng.next() as u8}).collect()),
+			37..=44 => St::Align(*rng.pick(&[1u32, 2, 4, 8, 16])),
+			45..=54 => St::Du(vec![rng.next() as u8], mode(rng)),
+			55..=64 => St::Du(vec![rng.next() as u8, rng.next() as u8], mode(rng)),
+			65..=76 => St::Du((0..4).map(|_| rng.next() as u8).collect(), mode(rng)),
+			77..=84 => St::Nop,
+			85..=92 => St::Udf(rng.next() as u8, mode(rng)),
+			_ => St::UdfW(rng.next() as u16, mode(rng)),
+		};
+		// `.du16 xxDE` and friends would be re-parsed as UDF from the op text; keep the program canonical
+		let st = St::parse_op(&st.op()).unwrap_or(st);
+		prog.push(st);
+	}
+	prog
+}
+
+pub fn run(_id: &str, cx: &mut Cx)
+{
+	cx.report.rule = "exhaustive: every program of length <= depth over a 26-statement alphabet (8 `.addr` targets, .dhex/.dstr of 1-4 bytes, .du8/.du16/.du32/NOP/UDF.W with a known value, \
+.du8/.du16/.du32/UDF/UDF.W with a forward local constant, .du8/.du16 resolved at finalize, .align 2/4) in the 8-address windows at 0x100 and 0xFFFFFFF8, not extended past a failing statement; \
+each program is assembled from TEXT by the real Context (assemble, close_segment, finalize) and compared with the model (errors with statement index and kind, final image) and with a byte-level shadow oracle. \
+random: 40-statement programs at both ends of the address space and elsewhere. non-trivial = every program; distinct = distinct (errors, image) results / per-subtree digests".to_owned();
+	let dirs = DirectiveList::generate();
+
+	if let Some(input) = cx.replay.clone()
+	{
+		let w: Vec<&str> = input.splitn(2, ' ').collect();
+		match w.as_slice()
+		{
+			["run"] | ["run", ""] =>
+			{
+				let reply = cx.model.ask("seg run");
+				check_prog(cx, &dirs, &[], &reply);
+			},
+			["run", ops] =>
+			{
+				let prog: Option<Vec<St>> = ops.split(';').filter(|s| !s.is_empty()).map(St::parse_op).collect();
+				match prog
+				{
+					None => cx.report.oracle_fail(input.clone(), "unrecognised replay input"),
+					Some(prog) =>
+					{
+						let reply = cx.model.ask(&format!("seg run {}", ops_text(&prog)));
+						check_prog(cx, &dirs, &prog, &reply);
+					},
+				}
+			},
+			["enum", rest] =>
+			{
+				let f: Vec<&str> = rest.split(' ').collect();
+				if f.len() != 3 {cx.report.oracle_fail(input.clone(), "unrecognised replay input"); return;}
+				let (base, depth) = (f[0].parse::<u32>().unwrap(), f[1].parse::<usize>().unwrap());
+				let pre: Vec<usize> = if f[2] == "-" {Vec::new()} else {f[2].split(',').map(|s| s.parse().unwrap()).collect()};
+				let m = cx.model.ask(&format!("seg enum {base} {depth} {}", f[2]));
+				let out = real_enum(&dirs, base, depth, &pre);
+				check_enum(cx, &dirs, base, depth, &pre, &m, out);
+			},
+			_ => cx.report.oracle_fail(input.clone(), "unrecognised replay input"),
+		}
+		return;
+	}
+
+	// the design-time witnesses of F10, F11, F12, F22 and a few boundary programs
+	let fixed = [
+		"sel:260;plc:01000000;sel:256;plc:00bf;plc:00bf;plc:00bf",
+		"sel:260;defl:0100;sel:256;plc:07000000",
+		"sel:256;plc:01;sel:256;plc:02",
+		"sel:4294967295;plc:01;plc:02",
+		"sel:4294967294;plc:3412;plc:55",
+		"sel:4294967294;defl:3412;al:2;al:4",
+		"plc:01",
+		"sel:257;al:4;defl:0102;app:aa;al:2;defg:77;sel:300;defg:aabb;sel:262;app:6162",
+		"sel:4294967292;defg:0102;defl:aabb;sel:4294967290;app:0102;app:03",
+	];
+	for f in fixed
+	{
+		let prog: Vec<St> = f.split(';').map(|o| St::parse_op(o).unwrap()).collect();
+		let reply = cx.model.ask(&format!("seg run {}", ops_text(&prog)));
+		check_prog(cx, &dirs, &prog, &reply);
+		cx.report.sample(format!("run {f} -> {reply}"));
+	}
+
+	let depth = if cx.thorough() {6} else {5};
+	exhaustive(cx, &dirs, depth);
+	cx.report.exhaustive = true;
+	cx.report.notes.push(format!("exhaustive: all programs of length <= {depth} in the windows at 0x00000100 and 0xFFFFFFF8"));
+
+	let nprog = if cx.thorough() {60_000} else {6_000};
+	let progs: Vec<Vec<St>> = (0..nprog).map(|i| {let mut r = cx.rng.fork(); gen_prog(&mut r, if i % 4 == 0 {120} else {40})}).collect();
+	cx.report.hit_n("random programs", nprog);
+	for chunk in progs.chunks(1024)
+	{
+		let lines: Vec<String> = chunk.iter().map(|p| format!("seg run {}", ops_text(p))).collect();
+		let replies = cx.model.ask_many(&lines);
+		for (p, r) in chunk.iter().zip(replies.iter()) {check_prog(cx, &dirs, p, r);}
+	}
 }
